@@ -35,6 +35,7 @@ class Contract:
         self.notes = kw.pop("notes", "")
         self.aux = set(kw.pop("aux", []))
         self.options = dict(kw.pop("options", {}))
+        self.ghost_instances = list(kw.pop("ghost_instances", []))  # extra instantiations of the ghost params when used as a callee
         self.ghost_params = dict(kw.pop("ghost_params", {}))     # name -> type: arbitrary-but-fixed values (universal quantification by generalisation)
         self.counter_axioms = list(kw.pop("counter_axioms", []))   # [(elem class, "expr over counters c['name'] and n")]
         self.elem_facts = dict(kw.pop("elem_facts", {}))       # elem class -> ["fact over x"] assumed for every element (precondition)
